@@ -333,6 +333,7 @@ func callsMethodOnGlobal(fn *ssa.Function, g *ssa.Global, method string) bool {
 // of fn or one of its closures during the finished abstract run.
 func fieldsTouched(ip *Interp, fn *ssa.Function, structs []*StructInfo) map[string]bool {
 	out := map[string]bool{}
+	seenFn := map[*ssa.Function]bool{}
 	var visit func(f *ssa.Function)
 	visit = func(f *ssa.Function) {
 		for _, b := range f.Blocks {
@@ -361,7 +362,31 @@ func fieldsTouched(ip *Interp, fn *ssa.Function, structs []*StructInfo) map[stri
 		for _, a := range f.AnonFuncs {
 			visit(a)
 		}
+		// unexported helpers that are handed the struct itself (t.actorProperty(a)) work on the caller's behalf
+		for _, call := range callsIn(f) {
+			if !ip.execInstr[call] {
+				continue
+			}
+			cal := call.Common().StaticCallee()
+			if cal == nil || cal.Blocks == nil || seenFn[cal] || cal.Object() == nil || cal.Object().Exported() {
+				continue
+			}
+			takesStruct := false
+			for _, p := range cal.Params {
+				n := namedOf(p.Type())
+				for _, si := range structs {
+					if n == si.Named {
+						takesStruct = true
+					}
+				}
+			}
+			if takesStruct {
+				seenFn[cal] = true
+				visit(cal)
+			}
+		}
 	}
+	seenFn[fn] = true
 	visit(fn)
 	_ = strings.Join
 	return out
